@@ -324,6 +324,23 @@ func (g *gen) enterLoop(li *loopInfo, b *ssa.BasicBlock, st *state, phis []*ssa.
 			return "weak"
 		}, alloc)
 	}
+	// ghost variables changed in the body get fresh values (newEpoch never touches ghost state)
+	var gnames []string
+	for name := range ef.strong {
+		if isGhostVar(name) {
+			gnames = append(gnames, name)
+		}
+	}
+	sort.Strings(gnames)
+	for _, name := range gnames {
+		if _, ok := st.heap[name]; ok || g.heapSorts[name] != "" {
+			srt := g.heapSorts[name]
+			if srt == "" {
+				srt = "Int"
+			}
+			st.heap[name] = g.newConst(name+"@", srt)
+		}
+	}
 	itc := g.newConst(iterName, "Int")
 	g.assert(app(">=", itc, "0"))
 	st.heap[iterName] = itc
@@ -511,6 +528,12 @@ func (g *gen) buildAutoInvariants(li *loopInfo, b *ssa.BasicBlock, phis []*ssa.P
 				return sAnd(app(">=", app("s.len", c), "0"), app(">=", app("s.off", c), "0"), app(">=", app("s.base", c), "0"))
 			}})
 		}
+	}
+	if g.opts.errprop {
+		name := fmt.Sprintf("loop%d/auto:no-pending-error", li.ordinal)
+		li.autoInv = append(li.autoInv, autoInv{name, func(e *env) string {
+			return sNot(g.heapVar(e.st, "GHOST.err", "Bool"))
+		}})
 	}
 	// candidates about the function's node parameters and local contexts (used by the frame inference)
 	if g.con != nil && g.con.flag("synth") {
